@@ -267,3 +267,22 @@ Theorem ward_total_refuted :
 Proof. exists 2%nat, 3%nat, tri, [[6;6];[0;0];[6;0]]. split; [vm_compute; reflexivity|].
   exists [3;4;3;4;4]%nat, [0;0;0;18;48]. split; vm_compute; reflexivity. Qed.
 Print Assumptions ward_total_refuted.
+
+(* non-vacuity of the hypotheses of H3a-H3d: a concrete proper Ward dendrogram
+   (the implementation's output for the path 0-1-2-3 with features 0,1,5,6) *)
+Example proper_dendrogram_exists :
+  ProperDendrogram 1 4 path4 [[0];[1];[5];[6]] [4;4;5;5;6;6;6]%nat [0;0;0;0;1#2;1#2;26] /\
+  CheapestMerges 1 4 path4 [[0];[1];[5];[6]] [4;4;5;5;6;6;6]%nat [0;0;0;0;1#2;1#2;26] /\
+  ward true 1 4 path4 [[0];[1];[5];[6]] = Some ([4;4;5;5;6;6;6]%nat, [0;0;0;0;1#2;1#2;26]) /\
+  partition [4;4;5;5;6;6;6]%nat [0;0;0;0;1#2;1#2;26] 1 = Some [0;0;1;1]%nat.
+Proof. split; [|split; [|split]].
+  - apply ward_check_sound. vm_compute. reflexivity.
+  - apply ward_check_sound. vm_compute. reflexivity.
+  - vm_compute. reflexivity.
+  - vm_compute. reflexivity. Qed.
+
+(* non-vacuity of K8: a second iteration can strictly improve the returned solution *)
+Example kmeans_iterations_strictly_improve :
+  Wk 1 [[0];[1];[2];[3];[6]] (kmeans true 1 2 [[0];[1];[2];[3];[6]] [0;1;0;0;0]%nat 2 0)
+  < Wk 1 [[0];[1];[2];[3];[6]] (kmeans true 1 2 [[0];[1];[2];[3];[6]] [0;1;0;0;0]%nat 1 0).
+Proof. vm_compute. reflexivity. Qed.
